@@ -661,16 +661,31 @@ theorem doWrite_spec {t : VT} (i : Inv t) (b : UInt8) (adv : Bool) :
 
 /-! ### cursor moves, `cr`, tab, `WriteByte` -/
 
+theorem clamp_bounds {v hi : Nat} (h : 1 ≤ hi) :
+    1 ≤ (if v < 1 then 1 else if v > hi then hi else v) ∧
+      (if v < 1 then 1 else if v > hi then hi else v) ≤ hi := by
+  by_cases a : v < 1
+  · simp [a]; omega
+  · by_cases b : v > hi
+    · simp [a, b]; omega
+    · simp [a, b]; omega
+
+theorem clamp_id {v hi : Nat} (h1 : 1 ≤ v) (h2 : v ≤ hi) : Term.clamp v hi = v := by
+  unfold Term.clamp
+  have a : ¬ v < 1 := by omega
+  have b : ¬ v > hi := by omega
+  simp [a, b]
+
 theorem setCursor_spec {t : VT} (i : Inv t) (x y : Nat) :
     Inv (setCursorPosition t x y) ∧ absVT (setCursorPosition t x y) = (absVT t).setCursor x y ∧
       (setCursorPosition t x y).active = t.active ∧ (setCursorPosition t x y).out = t.out := by
   have g := i.toGeo
   have hx : 1 ≤ (if x < 1 then 1 else if x > t.viewportWidth then t.viewportWidth else x) ∧
-      (if x < 1 then 1 else if x > t.viewportWidth then t.viewportWidth else x) ≤ t.viewportWidth := by
-    have := g.w1; split <;> [omega; (split <;> omega)]
+      (if x < 1 then 1 else if x > t.viewportWidth then t.viewportWidth else x) ≤ t.viewportWidth :=
+    clamp_bounds g.w1
   have hy : 1 ≤ (if y < 1 then 1 else if y > t.viewportHeight then t.viewportHeight else y) ∧
-      (if y < 1 then 1 else if y > t.viewportHeight then t.viewportHeight else y) ≤ t.viewportHeight := by
-    have := g.h1; split <;> [omega; (split <;> omega)]
+      (if y < 1 then 1 else if y > t.viewportHeight then t.viewportHeight else y) ≤ t.viewportHeight :=
+    clamp_bounds g.h1
   have g1 : Geo { t with
       cursorX := if x < 1 then 1 else if x > t.viewportWidth then t.viewportWidth else x,
       cursorY := if y < 1 then 1 else if y > t.viewportHeight then t.viewportHeight else y } :=
@@ -732,10 +747,8 @@ theorem writeByte_spec {t : VT} (i : Inv t) (b : UInt8) :
           refine ⟨t', by simp [hx, e, d1], i1, ?_, by rw [s1, s]⟩
           rw [a1, a]
           have := i.cxw; have := i.cy1; have := i.cyh; have := g.w1
-          have c1 : Term.clamp (t.cursorX - 1) t.viewportWidth = t.cursorX - 1 := by
-            unfold Term.clamp; split <;> [omega; (split <;> omega)]
-          have c2 : Term.clamp t.cursorY t.viewportHeight = t.cursorY := by
-            unfold Term.clamp; split <;> [omega; (split <;> omega)]
+          have c1 : Term.clamp (t.cursorX - 1) t.viewportWidth = t.cursorX - 1 := clamp_id (by omega) (by omega)
+          have c2 : Term.clamp t.cursorY t.viewportHeight = t.cursorY := clamp_id (by omega) (by omega)
           simp [hx, absVT, Term.setCursor, c1, c2]
         · exact ⟨t, by simp [hx], i, by simp [hx, absVT], rfl⟩
       · by_cases h9 : b = 9
@@ -747,5 +760,276 @@ theorem writeByte_spec {t : VT} (i : Inv t) (b : UInt8) :
           exact tabLoop_spec t.tabWidth i
         · simp only [h13, h10, h8, h9, if_false]
           simpa using doWrite_spec i b true
+
+
+/-! ### `SetState` -/
+
+theorem getElem?_byteAt {d : Array UInt8} {i : Nat} (h : i < d.size) : d[i]? = some (byteAt d i) := by
+  simp [byteAt, h]
+
+theorem range_succ_reverse_map {α} (f : Nat → α) (n : Nat) :
+    (List.range (n + 1)).reverse.map f = (List.range n).reverse.map (fun k => f (k + 1)) ++ [f 0] := by
+  rw [List.range_succ_eq_map]
+  simp [List.map_reverse, Function.comp_def]
+
+theorem redrawRow_spec (d : Array UInt8) (y : Nat) (hs : d.size < 4294967296) :
+    ∀ (n x off : Nat) (out : List Call), off + 3 * n ≤ d.size → x + n < 4294967296 →
+      redrawRow d y n x off out = some ((List.range n).reverse.map (fun k =>
+        Call.write (byteAt d (off + 3 * k)) (byteAt d (off + 3 * k + 1)) (byteAt d (off + 3 * k + 2)) (x + k) y)
+          ++ out) := by
+  intro n
+  induction n with
+  | zero => intro x off out _ _; simp [redrawRow]
+  | succ n ih =>
+    intro x off out h1 h2
+    have e1 : u32 (off + 1) = off + 1 := u32_of_lt (by omega)
+    have e2 : u32 (off + 2) = off + 2 := u32_of_lt (by omega)
+    have e3 : u32 (off + 3) = off + 3 := u32_of_lt (by omega)
+    have e4 : u32 (x + 1) = x + 1 := u32_of_lt (by omega)
+    rw [range_succ_reverse_map]
+    simp only [redrawRow, e1, e2, e3, e4, getElem?_byteAt (show off < d.size by omega),
+      getElem?_byteAt (show off + 1 < d.size by omega), getElem?_byteAt (show off + 2 < d.size by omega)]
+    rw [ih (x + 1) (off + 3) _ (by omega) (by omega)]
+    simp only [List.append_assoc, List.singleton_append, Nat.mul_zero, Nat.add_zero]
+    congr 2
+    apply List.map_congr_left
+    intro k _
+    have a1 : off + 3 + 3 * k = off + 3 * (k + 1) := by omega
+    have a2 : x + 1 + k = x + (k + 1) := by omega
+    rw [a1, a2]
+
+/-- the console writes `SetState(Active)` makes for console line `y` (newest first), for a buffer
+`d` of lines of `w` cells shown from line `vy` on -/
+def rowCalls (d : Array UInt8) (w vy y : Nat) : List Call :=
+  (List.range w).reverse.map fun k =>
+    Call.write (cellAt d w (y - 1 + vy) k).ch (cellAt d w (y - 1 + vy) k).fg (cellAt d w (y - 1 + vy) k).bg (k + 1) y
+
+/-- the log after redrawing `n` lines from line `y` on -/
+def allRows (d : Array UInt8) (w vy : Nat) : (n y : Nat) → List Call → List Call
+  | 0, _, out => out
+  | n + 1, y, out => allRows d w vy n (y + 1) (rowCalls d w vy y ++ out)
+
+theorem redrawRows_succ (t : VT) (n y : Nat) (out : List Call) :
+    redrawRows t (n + 1) y out =
+      (redrawRow t.data y t.viewportWidth 1
+        (u32 (u32 (sub32 y 1 + t.viewportY) * u32 (t.viewportWidth * 3))) out).bind
+          fun out => redrawRows t n (u32 (y + 1)) out := rfl
+
+theorem redrawRows_spec {t : VT} (g : Geo t) : ∀ (n y : Nat) (out : List Call), 1 ≤ y →
+    y + n = t.viewportHeight + 1 →
+      redrawRows t n y out = some (allRows t.data t.viewportWidth t.viewportY n y out) := by
+  have w3 := g.w3; have hsb := g.hsb; have := g.fits; have := g.vy; have := g.w1
+  intro n
+  induction n with
+  | zero => intro y out _ _; rfl
+  | succ n ih =>
+    intro y out hy hn
+    have e1 : sub32 y 1 = y - 1 := sub32_one hy (by omega)
+    have e2 : u32 (y - 1 + t.viewportY) = y - 1 + t.viewportY := u32_of_lt (by omega)
+    have e3 : u32 (t.viewportWidth * 3) = t.viewportWidth * 3 := u32_of_lt w3
+    have rows := g.rows (R := y - 1 + t.viewportY + 1) (by omega)
+    rw [succ_mul'] at rows
+    have e4 : u32 ((y - 1 + t.viewportY) * (t.viewportWidth * 3)) = (y - 1 + t.viewportY) * (t.viewportWidth * 3) :=
+      u32_of_lt (by omega)
+    have e5 : u32 (y + 1) = y + 1 := u32_of_lt (by omega)
+    have hr := redrawRow_spec t.data y (by rw [g.size]; omega) t.viewportWidth 1
+      ((y - 1 + t.viewportY) * (t.viewportWidth * 3)) out (by rw [g.size]; omega) (by omega)
+    have hrow : (List.range t.viewportWidth).reverse.map (fun k =>
+        Call.write (byteAt t.data ((y - 1 + t.viewportY) * (t.viewportWidth * 3) + 3 * k))
+          (byteAt t.data ((y - 1 + t.viewportY) * (t.viewportWidth * 3) + 3 * k + 1))
+          (byteAt t.data ((y - 1 + t.viewportY) * (t.viewportWidth * 3) + 3 * k + 2)) (1 + k) y)
+        = rowCalls t.data t.viewportWidth t.viewportY y := by
+      unfold rowCalls
+      apply List.map_congr_left
+      intro k _
+      have a0 : (y - 1 + t.viewportY) * (t.viewportWidth * 3) + 3 * k = ((y - 1 + t.viewportY) * t.viewportWidth + k) * 3 := by
+        rw [← Nat.mul_assoc]; omega
+      simp only [cellAt, a0, Nat.add_comm 1 k]
+    rw [hrow] at hr
+    rw [redrawRows_succ, e1, e2, e3, e4, e5, hr]
+    show redrawRows t n (y + 1) _ = _
+    rw [ih (y + 1) _ (by omega) (by omega)]
+    rfl
+
+theorem setState_spec {t : VT} (i : Inv t) (a : Bool) :
+    ∃ t', setState t a = .ok t' ∧ Inv t' ∧ absVT t' = absVT t ∧ t'.active = a ∧
+      t'.out = (if t.active = a ∨ a = false then t.out
+                else allRows t.data t.viewportWidth t.viewportY t.viewportHeight 1 t.out) ∧
+      t'.data = t.data ∧ t'.viewportY = t.viewportY := by
+  have g := i.toGeo
+  by_cases h : t.active = a
+  · exact ⟨t, by simp [setState, h], i, rfl, h, by simp [h], rfl, rfl⟩
+  · cases a with
+    | false =>
+      refine ⟨{ t with active := false }, by simp [setState, h], ?_, rfl, rfl, by simp, rfl, rfl⟩
+      exact ⟨g.frame rfl rfl rfl rfl rfl rfl rfl rfl rfl rfl rfl rfl g.cy1 g.cyh, i.cx1, i.cxw, i.off⟩
+    | true =>
+      have g1 : Geo { t with active := true } :=
+        g.frame rfl rfl rfl rfl rfl rfl rfl rfl rfl rfl rfl rfl g.cy1 g.cyh
+      have hr : redrawRows { t with active := true } t.viewportHeight 1 t.out = _ :=
+        redrawRows_spec g1 t.viewportHeight 1 t.out (by omega) (by simp; omega)
+      refine ⟨{ t with active := true,
+                       out := allRows t.data t.viewportWidth t.viewportY t.viewportHeight 1 t.out },
+        ?_, ?_, rfl, rfl, ?_, rfl, rfl⟩
+      · have hatt : ({ t with active := true } : VT).attached = true := g.att
+        unfold setState
+        rw [if_neg h]
+        simp only [hatt, Bool.and_self, if_true, hr]
+        simp [g.att]
+      · exact ⟨g.frame rfl rfl rfl rfl rfl rfl rfl rfl rfl rfl rfl rfl g.cy1 g.cyh, i.cx1, i.cxw, i.off⟩
+      · simp [h]
+
+
+/-! ### `AttachTo`, single steps, histories -/
+
+theorem byteAt_blankData {n : Nat} {fg bg : UInt8} {j : Nat} (h : j < n) :
+    byteAt (blankData n fg bg) j = pat fg bg j := by
+  have hs : j < (blankData n fg bg).size := by simp [blankData, h]
+  rw [byteAt_of_lt hs]
+  simp [blankData, pat]
+
+/-- the state `AttachTo` leaves behind -/
+def attached0 (w h sb tab : Nat) (fg bg : UInt8) : VT :=
+  { newVT tab sb with
+    attached := true, viewportWidth := w, viewportHeight := h, viewportY := 0,
+    defaultFg := fg, defaultBg := bg, curFg := fg, curBg := bg, termWidth := w, termHeight := h + sb,
+    cursorX := 1, cursorY := 1, data := blankData (w * (h + sb) * 3) fg bg }
+
+theorem attach_spec {w h sb : Nat} (tab : Nat) (fg bg : UInt8) (hw : 1 ≤ w) (hh : 1 ≤ h)
+    (hf : w * (h + sb) * 3 < 4294967296) :
+    ∃ t, attachTo (newVT tab sb) w h fg bg = .ok t ∧ Inv t ∧ absVT t = Term.new w h sb tab fg bg ∧
+      t.active = false ∧ t.out = [] := by
+  have b1 : 1 * (h + sb) ≤ w * (h + sb) := Nat.mul_le_mul_right _ hw
+  have e1 : u32 (h + sb) = h + sb := u32_of_lt (by omega)
+  have e2 : u32 (w * (h + sb)) = w * (h + sb) := u32_of_lt (by omega)
+  have e3 : u32 (w * (h + sb) * 3) = w * (h + sb) * 3 := u32_of_lt hf
+  have cells : ∀ r c, r < h + sb → c < w →
+      cellAt (blankData (w * (h + sb) * 3) fg bg) w r c = ⟨32, fg, bg⟩ := by
+    intro r c hr hc
+    have := cell_lt hr hc
+    unfold cellAt
+    rw [byteAt_blankData (by omega), byteAt_blankData (by omega), byteAt_blankData (by omega)]
+    have m0 : ((r * w + c) * 3) % 3 = 0 := by omega
+    have m1 : ((r * w + c) * 3 + 1) % 3 = 1 := by omega
+    have m2 : ((r * w + c) * 3 + 2) % 3 = 2 := by omega
+    simp [pat, m0, m1, m2]
+  refine ⟨attached0 w h sb tab fg bg, ?_, ?_, ?_, rfl, rfl⟩
+  · have : (w * (h + sb) * 3) % 3 = 0 := by omega
+    simp [attachTo, newVT, e1, e2, e3, this, attached0]
+  · refine ⟨⟨rfl, hw, hh, rfl, rfl, hf, by simp [blankData, newVT, attached0], by simp [attached0], by simpa [attached0] using hh, by simp [newVT, attached0],
+      rfl, rfl, ?_⟩, by simp [attached0], by simpa [attached0] using hw, by simp [newVT, attached0]⟩
+    intro r c _ h2 h3
+    exact cells r c h2 h3
+  · simp only [absVT, Term.new, newVT, attached0]
+    congr 1
+    apply eq_gridOf (by simp)
+    · intro r hr; simp
+    · intro r c hr hc
+      simp only [List.length_replicate, List.getElem_replicate] at hr hc ⊢
+      exact (cells r c hr hc).symm
+
+theorem step_spec {t : VT} (i : Inv t) (op : Op) :
+    ∃ t', step t op = .ok t' ∧ Inv t' ∧ absVT t' = (absVT t).step op := by
+  cases op with
+  | byte b =>
+    obtain ⟨t', a, b', c, _⟩ := writeByte_spec i b
+    exact ⟨t', a, b', c⟩
+  | cursor x y =>
+    have := setCursor_spec i x y
+    exact ⟨_, rfl, this.1, this.2.1⟩
+  | state a =>
+    obtain ⟨t', a', b', c, _⟩ := setState_spec i a
+    exact ⟨t', a', b', c⟩
+
+theorem run_spec : ∀ (ops : List Op) {t : VT}, Inv t →
+    ∃ t', run t ops = .ok t' ∧ Inv t' ∧ absVT t' = (absVT t).run ops := by
+  intro ops
+  induction ops with
+  | nil => intro t i; exact ⟨t, rfl, i, rfl⟩
+  | cons op ops ih =>
+    intro t i
+    obtain ⟨t1, a1, i1, r1⟩ := step_spec i op
+    obtain ⟨t2, a2, i2, r2⟩ := ih i1
+    refine ⟨t2, by simp [run, a1, Res.bind, a2], i2, ?_⟩
+    rw [r2, r1]; rfl
+
+/-! ### the reference terminal keeps its configuration -/
+
+structure SameCfg (a b : Term) : Prop where
+  w : b.w = a.w
+  h : b.h = a.h
+  sb : b.sb = a.sb
+  tab : b.tab = a.tab
+  fg : b.fg = a.fg
+  bg : b.bg = a.bg
+
+theorem SameCfg.refl (a : Term) : SameCfg a a := ⟨rfl, rfl, rfl, rfl, rfl, rfl⟩
+theorem SameCfg.trans {a b c : Term} (x : SameCfg a b) (y : SameCfg b c) : SameCfg a c :=
+  ⟨y.w.trans x.w, y.h.trans x.h, y.sb.trans x.sb, y.tab.trans x.tab, y.fg.trans x.fg, y.bg.trans x.bg⟩
+
+theorem put_cfg (t : Term) (b : UInt8) : SameCfg t (t.put b) := ⟨rfl, rfl, rfl, rfl, rfl, rfl⟩
+
+theorem lf_cfg (t : Term) : SameCfg t t.lf := by
+  unfold Term.lf
+  simp only
+  split
+  · exact ⟨rfl, rfl, rfl, rfl, rfl, rfl⟩
+  · split <;> exact ⟨rfl, rfl, rfl, rfl, rfl, rfl⟩
+
+theorem putAdv_cfg (t : Term) (b : UInt8) : SameCfg t (t.putAdv b) := by
+  unfold Term.putAdv
+  simp only
+  split
+  · exact ⟨rfl, rfl, rfl, rfl, rfl, rfl⟩
+  · exact (put_cfg t b).trans (lf_cfg _)
+
+theorem rep_cfg (f : Term → Term) (hf : ∀ t, SameCfg t (f t)) : ∀ n t, SameCfg t (Term.rep f n t) := by
+  intro n
+  induction n with
+  | zero => intro t; exact SameCfg.refl t
+  | succ n ih => intro t; exact (hf t).trans (ih (f t))
+
+theorem byte_cfg (t : Term) (b : UInt8) : SameCfg t (t.byte b) := by
+  unfold Term.byte
+  split
+  · exact ⟨rfl, rfl, rfl, rfl, rfl, rfl⟩
+  · split
+    · exact lf_cfg t
+    · split
+      · split
+        · exact ⟨rfl, rfl, rfl, rfl, rfl, rfl⟩
+        · exact SameCfg.refl t
+      · split
+        · exact rep_cfg _ (fun t => putAdv_cfg t 32) _ _
+        · exact putAdv_cfg t b
+
+theorem step_cfg (t : Term) (op : Op) : SameCfg t (t.step op) := by
+  cases op with
+  | byte b => exact byte_cfg t b
+  | cursor x y => exact ⟨rfl, rfl, rfl, rfl, rfl, rfl⟩
+  | state a => exact SameCfg.refl t
+
+theorem run_cfg : ∀ (ops : List Op) (t : Term), SameCfg t (t.run ops) := by
+  intro ops
+  induction ops with
+  | nil => intro t; exact SameCfg.refl t
+  | cons op ops ih => intro t; exact (step_cfg t op).trans (ih _)
+
+/-- `Geo.blank`, in the words of the reference terminal -/
+theorem below_blank {t : VT} (g : Geo t) :
+    (absVT t).grid.drop (t.viewportY + t.viewportHeight) =
+      List.replicate (t.scrollback - t.viewportY) (List.replicate t.viewportWidth ⟨32, t.defaultFg, t.defaultBg⟩) := by
+  have := g.vy
+  simp only [absVT, g.tw, g.th]
+  apply List.ext_getElem (by simp; omega)
+  intro r h1 h2
+  simp only [List.length_drop, gridOf_length] at h1
+  rw [List.getElem_drop, List.getElem_replicate, gridOf_row]
+  rw [show List.replicate t.viewportWidth (⟨32, t.defaultFg, t.defaultBg⟩ : Cell)
+      = (List.range t.viewportWidth).map (fun _ => ⟨32, t.defaultFg, t.defaultBg⟩) from by
+        rw [List.map_const', List.length_range]]
+  · apply row_congr
+    intro c hc
+    exact g.blank _ c (by omega) (by omega) hc
 
 end Firefly.VtProof
